@@ -173,6 +173,12 @@ func TestCodec(t *testing.T) {
 		}
 		defer func() { st.Close() }()
 		defer os.Remove(p)
+		// a handle opened BEFORE the rewrites (another process looking at the state file, a test helper):
+		// what it reads after each rewrite is what was written, too
+		early, _ := store.New(p)
+		if early != nil {
+			defer early.Close()
+		}
 		for i, m := range ms {
 			// a restart between two rewrites: the next write goes through a freshly opened handle
 			// (sometimes after a Read, as server.New does)
@@ -222,6 +228,29 @@ func TestCodec(t *testing.T) {
 						Replay: map[string]any{"sequence": seqReplay(ms[:i+1]), "read_back": out, "file_hex": hex.EncodeToString(b)}})
 				}
 				return
+			}
+			if early != nil && fitsItsSize(b) {
+				var eg smap
+				var eerr error
+				ep := ""
+				func() {
+					defer func() {
+						if r := recover(); r != nil {
+							ep = fmt.Sprint("panic ", r)
+						}
+					}()
+					eg, eerr = early.Read()
+				}()
+				if eg == nil && eerr == nil {
+					eg = smap{}
+				}
+				if ep != "" || eerr != nil || canonMap(eg) != canonMap(m) {
+					res.Find(common.Finding{Kind: "violation", Property: "C17", Signature: "codec:roundtrip:earlier-handle",
+						What:   fmt.Sprintf("store.Read through a handle opened before the rewrites does not return what store.Write #%d of the sequence wrote (err=%v %s)", i+1, eerr, ep),
+						Replay: map[string]any{"sequence": seqReplay(ms[:i+1]), "read_back": canonMap(eg), "file_hex": hex.EncodeToString(b)}})
+					early.Close()
+					early = nil
+				}
 			}
 			var got smap
 			rp := ""
